@@ -361,6 +361,7 @@ EFFECTS_C = [
 
 def check_effect(case, rec):
     typ, syntax, key, v1, v2, abbr, fixed, text = case['type'], case['syntax'], case['key'], case['v1'], case['v2'], case['abbr'], case['fixed'], case.get('text')
+    kind = case.get('kind', 'options')       # the table the key lives in: options, variables or snippets
     vals = {1: v1, 2: v2}
 
     def ex(gt, gs, call):
@@ -368,12 +369,12 @@ def check_effect(case, rec):
         if text:
             user['text'] = text
         if call:
-            user['options'][key] = copy.deepcopy(vals[call])
+            user.setdefault(kind, {})[key] = copy.deepcopy(vals[call])
         glob = {}
         if gt:
-            glob.setdefault(typ, {}).setdefault('options', {})[key] = copy.deepcopy(vals[gt])
+            glob.setdefault(typ, {}).setdefault(kind, {})[key] = copy.deepcopy(vals[gt])
         if gs:
-            glob.setdefault(syntax, {}).setdefault('options', {})[key] = copy.deepcopy(vals[gs])
+            glob.setdefault(syntax, {}).setdefault(kind, {})[key] = copy.deepcopy(vals[gs])
         su, sg = copy.deepcopy(user), copy.deepcopy(glob)
         rec.evals()
         with guard():
@@ -393,8 +394,14 @@ def check_effect(case, rec):
         return
     if text and text not in R[1].replace('"', ' ').replace('>', ' ').replace('<', ' ') and text not in R[1]:
         rec.fail('option-effect:text-lost:%s' % key, 'wrap text %r missing from %r' % (text, R[1]))
+    # where the value itself is visible in the output (variables, snippet bodies) it must be there literally — also the empty string
+    for k in (1, 2):
+        mk = case.get('m%d' % k)
+        if mk is not None and mk not in R[k]:
+            rec.fail('value-not-in-output:%s' % kind, '%s/%s %s %r = %r: expand(%r) = %r does not contain %r' % (typ, syntax, kind, key, vals[k], abbr, R[k], mk))
+            return
     rec.nontrivial()
-    rec.cls('option-effect/%s%s' % (typ, '+text' if text else ''))
+    rec.cls('%s-effect/%s%s' % (kind, typ, '+text' if text else ''))
     for gt, gs, call in itertools.product((0, 1, 2), repeat=3):
         if (gt, gs) == (0, 0):
             continue
@@ -418,6 +425,23 @@ def effect_cases():
                     yield {'type': typ, 'syntax': syn, 'key': key, 'v1': v1, 'v2': v2, 'abbr': abbr, 'fixed': fixed, 'text': None}
                 if text:
                     yield {'type': typ, 'syntax': syn, 'key': key, 'v1': v1, 'v2': v2, 'abbr': abbr, 'fixed': fixed, 'text': text if isinstance(text, str) else 'WT'}
+
+
+    # variables and snippets whose VALUE shows in the output, incl. the boundary values: empty string, a value equal to the key's own name,
+    # a value that looks like another variable reference
+    VARS = [('lang', '', 'de', 'p[title=${lang}]{(${lang})}', 'title=""', 'title="de"'), ('zzv', '', 'zzv', 'p[title=${zzv}]{(${zzv})}', '()', '(zzv)'),
+            ('charset', '', 'x y', '!', 'charset=""', 'charset="x y"'), ('lang', '0', 'lang', 'doc', 'lang="0"', 'lang="lang"')]
+    for key, v1, v2, abbr, m1, m2 in VARS:
+        for syn in ('html', 'pug', 'nosuch'):
+            if syn == 'pug' and abbr in ('!', 'doc'):
+                continue
+            for text in (None, 'WT'):
+                yield {'kind': 'variables', 'type': 'markup', 'syntax': syn, 'key': key, 'v1': v1, 'v2': v2, 'abbr': abbr, 'fixed': {}, 'text': text, 'm1': m1, 'm2': m2}
+    SNIPS = [('markup', 'zzs', 'em.a', 'strong.b', 'zzs', '<em class="a">', '<strong class="b">'), ('markup', 'a', 'a[href=q]', 'b', 'a', 'href="q"', '<b>'),
+             ('stylesheet', 'zzs', 'zz-prop:a|b', 'yy-prop:c', 'zzs', 'zz-prop: a', 'yy-prop: c'), ('stylesheet', 'm', 'max-zz:1', 'min-zz:2', 'm', 'max-zz: 1', 'min-zz: 2')]
+    for typ, key, v1, v2, abbr, m1, m2 in SNIPS:
+        for syn in (('html', 'xml', 'nosuch') if typ == 'markup' else ('css', 'scss', 'nosuch')):
+            yield {'kind': 'snippets', 'type': typ, 'syntax': syn, 'key': key, 'v1': v1, 'v2': v2, 'abbr': abbr, 'fixed': {}, 'text': None, 'm1': m1, 'm2': m2}
 
 
 CHECKS = {'effect': check_effect, 'lattice': check_lattice, 'natural': check_natural, 'unknown': check_unknown}
